@@ -10,7 +10,7 @@ variable {α : Type}
 
 /-- Every `List` trait with a `List` partner has the items handler registered. -/
 def HookOk (E : Env α) (w : World α) : Prop :=
-  ∀ e ∈ w.edges, E.isList e.src.2 = true → E.isList e.dst.2 = true → e.src ∈ w.hooked
+  ∀ e ∈ w.edges, E.isList e.src = true → E.isList e.dst = true → e.src ∈ w.hooked
 
 instance (E : Env α) (w : World α) : Decidable (HookOk E w) := by unfold HookOk; infer_instance
 
